@@ -1070,7 +1070,12 @@ class _KindFactory:
             self.kind.set_conditions_kind("EQUALITIES")
         if OperatorKind.NOT in ops:
             self.kind.set_conditions_kind("NEGATIVE_CONDITIONS")
-        if OperatorKind.OR in ops or OperatorKind.IMPLIES in ops:
+        if (
+            OperatorKind.OR in ops
+            or OperatorKind.IMPLIES in ops
+            or OperatorKind.IFF in ops
+        ):
+            # an equivalence is a pair of implications
             self.kind.set_conditions_kind("DISJUNCTIVE_CONDITIONS")
         if OperatorKind.EXISTS in ops:
             self.kind.set_conditions_kind("EXISTENTIAL_CONDITIONS")
